@@ -7,22 +7,37 @@ From Pipe Require Import Model Base Notify Terminal Drop Scenarios.
 (* C16 for a given set of facts: every reachable state in which the stream has been dropped and in which nothing can
    move as long as the input stays silent has released the Desync and the poll function (input stream + closure) *)
 Definition C16_statement (F : pfacts) : Prop :=
-  forall f inputs ext tr s,
-    run F f (init F inputs ext) tr = Some s ->
+  forall f inputs sl ext tr s,
+    run F f (init_slow F inputs sl ext) tr = Some s ->
     dropped s = true -> terminal_silent F f s ->
     s.(strong_held) = false /\ released s = true.
 
 (* the stronger, literal reading: the poll function has been set to None *)
 Definition C16_literal (F : pfacts) : Prop :=
-  forall f inputs ext tr s,
-    run F f (init F inputs ext) tr = Some s ->
+  forall f inputs sl ext tr s,
+    run F f (init_slow F inputs sl ext) tr = Some s ->
     dropped s = true -> terminal_silent F f s ->
     s.(strong_held) = false /\ s.(poll_fn) = false.
 
-Lemma C16_holds_with_recheck F : F.(f_pending_recheck) = true -> C16_statement F.
+Lemma C16_holds_with_recheck F :
+  F.(f_pending_recheck) = true -> F.(f_drop_wakes_before_dispose) = true -> C16_statement F.
 Proof.
-  intros HF f inputs ext tr s Hr Hd Ht.
-  destruct (drop_shuts_down F f HF _ _ _ _ Hr Hd Ht) as (H1 & H2 & _). done.
+  intros HF HO f inputs sl ext tr s Hr Hd Ht.
+  destruct (drop_shuts_down F f HF HO _ _ _ _ _ Hr Hd Ht) as (H1 & H2 & _). done.
+Qed.
+
+(* C16 when the pipe is the last owner of the Desync: in every terminal state after the drop (silent input, nobody else owns
+   the object) the object has been freed (once: freed_at_most_once) and the core lock is free *)
+Definition C16_last_owner_statement (F : pfacts) : Prop :=
+  forall f inputs sl ext tr s,
+    run F f (init_slow F inputs sl ext) tr = Some s ->
+    dropped s = true -> terminal_silent F f s -> s.(ext_owner) = false ->
+    s.(freed) = 1 /\ core_locked s = false.
+Lemma C16_last_owner_holds F :
+  F.(f_pending_recheck) = true -> F.(f_drop_wakes_before_dispose) = true -> C16_last_owner_statement F.
+Proof.
+  intros HF HO f inputs sl ext tr s Hr Hd Ht He.
+  destruct (last_owner_drop F f HF HO _ _ _ _ _ Hr Hd Ht He) as (H1 & _ & H2 & _). done.
 Qed.
 
 Lemma terminal_silentb_sound F f s : terminal_silentb F f s = true -> terminal_silent F f s.
@@ -50,7 +65,7 @@ Proof.
   assert (Hv : (dropped s, terminal_silentb facts_unrepaired f100 s, released s) = (true, true, false)).
   { vm_compute in Hr. injection Hr as <-. vm_compute. reflexivity. }
   injection Hv as Hd Ht Hrel.
-  destruct (H f100 [1] false c16_witness s Hr Hd (terminal_silentb_sound _ _ _ Ht)) as [_ H2]. congruence.
+  destruct (H f100 [1] [] false c16_witness s Hr Hd (terminal_silentb_sound _ _ _ Ht)) as [_ H2]. congruence.
 Qed.
 
 (* the witness state in full: poll_fn still Some, a live waker registered with the silent input *)
@@ -77,27 +92,27 @@ Proof.
   assert (Hv : (dropped s, terminal_silentb F_depth1_repaired f100 s, s.(poll_fn)) = (true, true, true)).
   { vm_compute in Hr. injection Hr as <-. vm_compute. reflexivity. }
   injection Hv as Hd Ht Hp.
-  destruct (H f100 _ _ _ s Hr Hd (terminal_silentb_sound _ _ _ Ht)) as [_ H2]. congruence.
+  destruct (H f100 _ [] _ _ s Hr Hd (terminal_silentb_sound _ _ _ Ht)) as [_ H2]. congruence.
 Qed.
 
 (* ---------- C12.2 / C12.4 as predicates on the facts; refutation for a poll_next that keeps a stale waker ---------- *)
 Definition C12_woken_statement (F : pfacts) : Prop :=
-  forall f inputs ext tr s,
-    run F f (init F inputs ext) tr = Some s ->
+  forall f inputs sl ext tr s,
+    run F f (init_slow F inputs sl ext) tr = Some s ->
     (s.(cst) = CPend \/ s.(cst) = CRun true) -> (s.(pending) <> [] \/ s.(closed) = true) ->
     s.(notify) = None /\ (s.(cwoken) = true \/ cons_wake_inflight s = true).
 Definition C12_terminal_statement (F : pfacts) : Prop :=
-  forall f inputs ext tr s,
+  forall f inputs sl ext tr s,
     Forall (fun a => a <> ACSetDepth 0) tr ->
-    run F f (init F inputs ext) tr = Some s ->
+    run F f (init_slow F inputs sl ext) tr = Some s ->
     terminal F f s -> dropped s = false ->
     s.(delivered) = f <$> inputs /\ s.(got_end) = true /\ s.(cst) = CDone.
 
 Lemma C12_woken_holds_with_replace F : F.(f_poll_next_replaces_waker) = true -> C12_woken_statement F.
-Proof. intros HF f inputs ext tr s. exact (consumer_always_woken F f HF inputs ext tr s). Qed.
+Proof. intros HF f inputs sl ext tr s. exact (consumer_always_woken F f HF inputs sl ext tr s). Qed.
 Lemma C12_terminal_holds_with_replace F :
   F.(f_poll_next_replaces_waker) = true -> 1 <= F.(f_default_depth) -> C12_terminal_statement F.
-Proof. intros HF Hd f inputs ext tr s Hok. exact (terminal_complete F f HF inputs ext tr s Hd Hok). Qed.
+Proof. intros HF Hd f inputs sl ext tr s Hok. exact (terminal_complete F f HF inputs sl ext tr s Hd Hok). Qed.
 
 Lemma stale_waker_state :
   exists s, run facts_stale_waker f100 (init facts_stale_waker [1] true) stale_waker_trace = Some s /\
@@ -113,7 +128,7 @@ Qed.
 Lemma C12_woken_refuted_stale_waker : ~ C12_woken_statement facts_stale_waker.
 Proof.
   intros H. destruct stale_waker_state as (s & Hr & Hc & Hp & Hcl & Hw & Hi & _).
-  destruct (H f100 [1] true _ s Hr (or_introl Hc) (or_intror Hcl)) as [_ [?|?]]; congruence.
+  destruct (H f100 [1] [] true _ s Hr (or_introl Hc) (or_intror Hcl)) as [_ [?|?]]; congruence.
 Qed.
 
 Lemma C12_terminal_refuted_stale_waker : ~ C12_terminal_statement facts_stale_waker.
@@ -121,5 +136,23 @@ Proof.
   intros H. destruct stale_waker_state as (s & Hr & Hc & _ & _ & _ & _ & _ & Hd & Ht).
   assert (Hok : Forall (fun a => a <> ACSetDepth 0) stale_waker_trace).
   { unfold stale_waker_trace. cbn. repeat (constructor; [done|]). constructor. }
-  destruct (H f100 [1] true _ s Hok Hr Ht Hd) as (_ & _ & Hcd). congruence.
+  destruct (H f100 [1] [] true _ s Hok Hr Ht Hd) as (_ & _ & Hcd). congruence.
+Qed.
+
+(* ---------- the swapped order in Drop for PipeStream: deadlock between Drop::drop and the final sync ---------- *)
+Lemma swapped_drop_state :
+  exists s, run facts_swapped_drop f100 (init facts_swapped_drop [1] true) swapped_drop_deadlock = Some s /\
+            dropped s = true /\ terminal_silent facts_swapped_drop f100 s /\ s.(ext_owner) = false /\
+            s.(cst) = CDrop1 /\ core_locked s = true /\ s.(cwk) = WSync /\ s.(running) = Some (1, JFull) /\
+            s.(freed) = 0.
+Proof.
+  destruct (run facts_swapped_drop f100 (init facts_swapped_drop [1] true) swapped_drop_deadlock) as [s|] eqn:Hr; [|by vm_compute in Hr].
+  exists s. split; [done|]. vm_compute in Hr. injection Hr as <-.
+  split_and!; try (vm_compute; reflexivity). apply terminal_silentb_sound. vm_compute. reflexivity.
+Qed.
+
+Lemma C16_last_owner_refuted_swapped : ~ C16_last_owner_statement facts_swapped_drop.
+Proof.
+  intros H. destruct swapped_drop_state as (s & Hr & Hd & Ht & He & _ & Hl & _).
+  destruct (H f100 [1] [] true _ s Hr Hd Ht He) as [_ H2]. congruence.
 Qed.
